@@ -10,10 +10,10 @@ cmake --build "$WT/_build" >/dev/null 2>&1 || { echo "CONFIRM $ID: does not comp
 NPASS=$(ctest --test-dir "$WT/_build" -j8 --timeout 900 2>&1 | grep -c "Passed")
 DEMO=$(ls "$D"/demo.sh 2>/dev/null)
 if [ -z "$DEMO" ]; then echo "CONFIRM $ID: no demo.sh (see README)"; fi
-if [ -n "$DEMO" ]; then (cd "$WT" && timeout 600 sh "$DEMO" >/tmp/confirm_$ID.with 2>&1); RCW=$?; else RCW=-1; fi
+if [ -n "$DEMO" ]; then (cd "$WT" && timeout 900 bash "$DEMO" >/tmp/confirm_$ID.with 2>&1); RCW=$?; else RCW=-1; fi
 git checkout -q -- .
 cmake --build "$WT/_build" >/dev/null 2>&1
-if [ -n "$DEMO" ]; then (cd "$WT" && timeout 600 sh "$DEMO" >/tmp/confirm_$ID.without 2>&1); RCO=$?; else RCO=-1; fi
+if [ -n "$DEMO" ]; then (cd "$WT" && timeout 900 bash "$DEMO" >/tmp/confirm_$ID.without 2>&1); RCO=$?; else RCO=-1; fi
 echo "CONFIRM $ID: tests_passed=$NPASS demo_with_patch_rc=$RCW demo_without_patch_rc=$RCO"
 if [ "$NPASS" = "87" ] && [ "$RCW" != "0" ] && [ "$RCO" = "0" ]; then
   mkdir -p /verif/seeded/$ID && cp -r "$D"/* /verif/seeded/$ID/ && echo "  kept -> /verif/seeded/$ID"
